@@ -201,6 +201,43 @@ def run_history(seed_spec, ops):
     return None
 
 
+def check_shared_inputs(seed_spec, op):
+    """Two objects constructed from the SAME numpy arrays (frames of one system): operating on one leaves the other, and the arrays, alone."""
+    from mofun import Atoms
+    with quiet():
+        src = gen.mk(**seed_spec)
+        frags = [gen.mk(**f) for f in FRAGS]
+        arrs = dict(atom_types=np.array(src.atom_types), positions=np.array(src.positions, dtype=float), charges=np.array(src.charges, dtype=float),
+                    groups=np.array(src.groups, dtype=int))
+        saved = {k: v.copy() for k, v in arrs.items()}
+        tables = dict(atom_type_masses=list(src.atom_type_masses), atom_type_elements=list(src.atom_type_elements), atom_type_labels=list(src.atom_type_labels),
+                      pair_coeffs=list(src.pair_coeffs), cell=np.array(src.cell))
+        one = Atoms(**arrs, **tables)
+        two = Atoms(**arrs, **tables)
+        v2 = gen.view(two)
+        try:
+            if op == 'extend-mapped':
+                one.extend(frags[1], structure_index_map={0: 0})
+            elif op == 'translate':
+                one.translate(np.array([0.5, -0.25, 1.0]))
+            elif op == 'delete':
+                del one[[0]]
+            elif op == 'set-charge':
+                one.charges[0] = 9.0
+                one.groups[0] = 5
+        except Exception as e:
+            return "%s raised %r" % (op, e)
+        if gen.view(two) != v2:
+            return "%s on one object changed another object constructed from the same arrays" % op
+        for k, v in arrs.items():
+            if not np.array_equal(v, saved[k]):
+                return "%s on an object changed the %s array it was constructed from" % (op, k)
+        probs = gen.wf_problems(two) + gen.wf_problems(one)
+        if probs:
+            return "after %s: %s" % (op, "; ".join(probs))
+    return None
+
+
 def candidate_ops(n_atoms, rnd, breadth):
     ops = [('copy',), ('replicate', (1, 1, 2))]
     if n_atoms >= 1:
@@ -243,7 +280,12 @@ def replay(inp):
     return (msg is not None), (msg or 'history keeps the object consistent')
 
 
-REPLAY = {'history': replay}
+def replay_shared(inp):
+    msg = check_shared_inputs(inp['seed_spec'], inp['op'])
+    return (msg is not None), (msg or 'objects constructed from the same arrays are independent')
+
+
+REPLAY = {'history': replay, 'shared-inputs': replay_shared}
 
 
 def run(rec, tier, seed):
@@ -254,6 +296,14 @@ def run(rec, tier, seed):
                 "object == abstract model (specs of C10/C11/C12) on resolved label/element/mass/pair/coefficient text, representation invariant, "
                 "fragment unmodified; at the end: LAMMPS data file with matching declared counts that reads back. distinct = histories" % depth)
     rnd = random.Random(seed)
+    for si, seed_spec in enumerate(SEEDS):
+        for op in ('extend-mapped', 'translate', 'delete', 'set-charge'):
+            if op == 'extend-mapped' and seed_spec['coeffs'] != FRAGS[1]['coeffs']:
+                continue        # outside the compatibility precondition of extend (one side has coefficient tables, the other has none)
+            msg = check_shared_inputs(seed_spec, op)
+            rec.case(('shared-inputs', si, op), group='shared-input-arrays')
+            if msg:
+                rec.fail('shared-inputs', 'shared-inputs', "%s [seed %r]" % (msg, seed_spec), {'seed_spec': seed_spec, 'op': op}, 'C09/independent-objects')
     for si, seed_spec in enumerate(SEEDS):
         def rec_hist(prefix, n):
             if len(prefix) == depth:
